@@ -147,7 +147,7 @@ MethodDemand(f, ff, t) ==
       THEN [test |-> FALSE, IgnoreTest |-> zero, EmptyTest |-> zero, RedundantAssertionTest |-> zero,
             UnknownTest |-> zero, DuplicateAssertTest |-> zero,
             print |-> <<>>, printOpt |-> <<>>, sleep |-> <<>>, sleepOpt |-> <<>>, deep |-> FALSE,
-            singleCall |-> FALSE, ignoreOnlyEmpty |-> FALSE]
+            singleCall |-> FALSE, ignoreOnlyEmpty |-> FALSE, newsOnly |-> FALSE]
       ELSE [test |-> TRUE, IgnoreTest |-> R(ign, ign), EmptyTest |-> empty,
             RedundantAssertionTest |-> R(redLo, redHi), UnknownTest |-> unk, DuplicateAssertTest |-> dup,
             print |-> [k \in DOMAIN pr |-> pr[k].line], printOpt |-> [k \in DOMAIN prH |-> prH[k].line],
@@ -155,7 +155,10 @@ MethodDemand(f, ff, t) ==
             deep |-> deep,
             \* the two listed known-finding shapes (see Tags below)
             singleCall |-> ("Test" \in names /\ nCalls = 1 /\ nNews = 0 /\ h = <<>>),
-            ignoreOnlyEmpty |-> ("Test" \notin names /\ "Ignore" \in names /\ nCalls = 0 /\ nNews = 0)]
+            ignoreOnlyEmpty |-> ("Test" \notin names /\ "Ignore" \in names /\ nCalls = 0 /\ nNews = 0),
+            \* Free_CreationIsCall leaves two readings of a body made of creations only, and each demands a finding:
+            \* a creation is a call -> UnknownTest (calls, none an assertion); it is not -> EmptyTest (no call at all)
+            newsOnly |-> (nCalls = 0 /\ nNews > 0)]
 
 SpanTypes == {"IgnoreTest", "EmptyTest", "RedundantAssertionTest", "UnknownTest", "DuplicateAssertTest"}
 LineTypes == {"RedundantPrintTest", "SleepyTest"}
@@ -219,7 +222,14 @@ DiffFile(f, ff, obs) ==
       \* "files that are not test files never produce a finding"
       THEN (IF obsF = <<>> THEN {} ELSE {Item("finding-in-non-test-file", Path(f), {})})
       ELSE UNION {DiffSpanType(f, ff, dem, obsF, T) : T \in SpanTypes} \cup
-           UNION {DiffLineType(f, dem, obsF, T) : T \in LineTypes}
+           UNION {DiffLineType(f, dem, obsF, T) : T \in LineTypes} \cup
+           \* a test whose body only creates objects gets EmptyTest or UnknownTest (whichever reading of "call" is taken)
+           LET n == Len(f.methods)
+               inSpan(t, ln) == ff.methods[t].first <= ln /\ ln <= ff.methods[t].last
+               eu == SelectSeq(obsF, LAMBDA o : o.type \in {"EmptyTest", "UnknownTest"})
+               served(t) == \E k \in DOMAIN eu : inSpan(t, eu[k].line) \/ \A x \in 1..n : ~inSpan(x, eu[k].line)
+           IN  {Item("missing-finding", Path(f) \o ":" \o f.methods[t].name \o ":EmptyTest-or-UnknownTest", {}) :
+                  t \in {x \in 1..n : dem[x].test /\ dem[x].newsOnly /\ ~served(x)}}
 
 Bag(s) == [x \in Range(s) |-> Cardinality({i \in DOMAIN s : s[i] = x})]
 
